@@ -267,6 +267,7 @@ def run(ctx):
     for i in range(8):
         args.append((shard_random, (ctx.seed * 97 + i, nr, 14)))
     core.run_shards(ctx, _dispatch, args)
+    cut_member_part(ctx, rnd)
     multi_part(ctx, b, rnd)
     ctx.cov['exhaustive'] = True
     ctx.cov['exhaustive_subspace'] = ('all legal op sequences of length <= %d over {next, read(1), read(5), read-all, check, extract, extract-named} '
@@ -274,6 +275,70 @@ def run(ctx):
     ctx.cov['rule'] = ('histories obey the side conditions (<= 1 decode operation per member, <= 1 extract per entry); exhaustive to the depth '
                        'bound on fixed archives, deferred-link ladders (3-4 dangerous links in every order x {skip, extract, extract to an explicit name} per link), seeded random on generated ones (2-6 members, all methods, nested dirs, safe/dangerous links, 4 '
                        'stream kinds); distinct by (archive, policy, history, stream kind); non-trivial = uses at least two different operations')
+
+
+def cut_member_part(ctx, rnd):
+    """A last member whose compressed data stops short (inside a command, at several offsets, every method) - because the archive
+    ends early, or because the member's own packed size says so - behind a first member A.  Whatever bytes such a member yields, they are a function of the archive: read after A was read to the
+    end, read partly, checked, or skipped - each history in a process of its own, so that nothing but the archive and the history
+    differs - the bytes of the cut member must be the same.  (No reference model is needed for what the bytes are.)"""
+    from concurrent.futures import ThreadPoolExecutor
+    from ..lhamodel import header as H
+    hist = {'read': [(rdh.OP_NEXT, 0), (rdh.OP_READALL, 0), (rdh.OP_NEXT, 0), (rdh.OP_READALL, 0)],
+            'skipped': [(rdh.OP_NEXT, 0), (rdh.OP_NEXT, 0), (rdh.OP_READALL, 0)],
+            'checked': [(rdh.OP_NEXT, 0), (rdh.OP_CHECK, 0), (rdh.OP_NEXT, 0), (rdh.OP_READALL, 0)],
+            'read-1': [(rdh.OP_NEXT, 0), (rdh.OP_READ, 1), (rdh.OP_NEXT, 0), (rdh.OP_READALL, 0)]}
+    jobs = []
+    for m in streams.ALL_METHODS:
+        mb, lvl, os_t = (b'-lh7-', 1, 0x20) if m == '-lk7-' else (m.encode(), rnd.choice([0, 1, 2]), ord('U'))
+        for rep in range((4 if m == '-lz5-' else 2) if ctx.tier == 'quick' else 12):
+            a = arc.file_member(rnd, m, b'a.bin', size=rnd.choice([30, 200]), level=lvl if m == '-lk7-' else rnd.choice([0, 1, 2]))
+            packed, plain, _ = streams.valid_stream(rnd, m, rnd.choice([6, 40]))
+            if m == '-lz5-':
+                # the byte-oriented method: make the stream end in a copy command, so that the cut one byte before the end falls
+                # between the two bytes of a command
+                from ..lhamodel import larc
+                cmds = larc.gen_cmds(rnd, m, rnd.choice([1, 6, 40])) + [('P', rnd.randrange(4096), rnd.choice([3, 9, 18]))]
+                packed, plain = larc.serialise_lz5(cmds, rnd), larc.expand_lz5(cmds)
+            if len(packed) < 2:
+                continue
+            cuts = sorted(set([len(packed) - 1, len(packed) - 2, len(packed) // 2, 1] + [rnd.randrange(1, len(packed)) for _ in range(2)]))
+            for cut in cuts:
+                if cut < 1:
+                    continue
+                mB = H.simple_member(b'b.bin', plain, level=lvl, method=mb, os_type=os_t, packed=packed[:cut])
+                mB['packed_field'] = None
+                mB.pop('packed_field')
+                A1 = H.build(a.m) + H.build_header(dict(mB, data=packed))[0] + packed[:cut]       # header promises all of it; the file ends early
+                A2 = H.build(a.m) + H.build(dict(mB, data=packed[:cut])) + b'\0'                  # the member's own data stops inside a command
+                for A in (A1, A2):
+                    for hn, ops in hist.items():
+                        jobs.append((m, cut, len(packed), hn, A, ops))
+
+    def one(j):
+        m, cut, total, hn, A, ops = j
+        sh = core.Shard()
+        c = rdh.RCase(A, ops, kind=rnd_kind[(cut + len(hn)) % 2], flags=rdh.F_FULLDATA, meta=hn)
+        res = rdh.run_batch(_EXE, [c], sh, label='c15cut%d' % (id(j) % 100000), on_crash=lambda c_, cls, key, err: sh.violation('C15-crash:' + key, err[-600:], c_.archive))
+        ev = res.get(c.id) or []
+        d = [dd for k, dd in ev if k == 'readall']
+        return j, sh, (d[-1]['data'] if d else None)
+    rnd_kind = (0, 2)
+    groups = {}
+    with ThreadPoolExecutor(max_workers=16) as ex:
+        for j, sh, data in ex.map(one, jobs):
+            core.merge_shard(ctx, sh)
+            groups.setdefault((j[0], j[4]), {})[j[3]] = data
+            ctx.count('cut_member_runs')
+    for (m, A), by in groups.items():
+        ctx.cov['evaluations'] += 1
+        vals = {hn: d for hn, d in by.items() if d is not None}
+        if len(set(vals.values())) > 1:
+            ref = vals.get('skipped', next(iter(vals.values())))
+            diff = [hn for hn, d in vals.items() if d != ref]
+            ctx.violation('C15-cut-member-bytes-depend-on-history:' + m, 'the last member (%s, data cut short by the end of the archive) yields different bytes depending on '
+                          'what was done with the member before it: %s' % (m, ', '.join('%s -> %s' % (hn, (d[:8].hex() + '..') if d else d) for hn, d in sorted(vals.items()))), A)
+        ctx.count('cut_member_archives')
 
 
 # ---------------------------------------------------------------------------------------------------------------
